@@ -115,9 +115,27 @@ func checkC14(c c14Case) *core.Failure {
 	if c.CSRDER != nil && c.KeyDER == nil {
 		wantCSR, _ = xref.ParseCSR(c.CSRDER)
 	}
+	refused := false
 	verify := func(phase string, res core.RunResult) *core.Failure {
 		if res.Panic != "" {
 			return core.Failf("C14/panic", "%s: gopki panicked: %s", phase, res.Panic)
+		}
+		if !res.OK() && wantCSR != nil && c.Target != "leaf" {
+			// an entity that has to sign (itself or others) cannot do so with a request alone: the run may well fail,
+			// but it must not make up a key or lose the request on the way
+			f := d.Files[core.PemPath(t.File)]
+			if f == nil {
+				return core.Failf("C14/request-changed", "%s: the run failed (%s) and the artifact holding the request is gone", phase, res.String())
+			}
+			a := core.ParseArtifact(f.Data)
+			if a.KeyDER != nil {
+				return core.Failf("C14/key-invented", "%s: the run failed (%s) yet a private key was written for the request-based %s", phase, res.String(), c.Target)
+			}
+			if !bytes.Equal(a.CSRDER, c.CSRDER) {
+				return core.Failf("C14/request-changed", "%s: the run failed (%s) and the certificate request is gone or changed", phase, res.String())
+			}
+			refused = true
+			return nil
 		}
 		if !res.OK() && c.NoNull {
 			// whether this flavour is "a PKCS#8 key" is open; refusing it is fine, replacing it is not
@@ -166,6 +184,9 @@ func checkC14(c c14Case) *core.Failure {
 	}
 	if f := verify("first run", core.Run(d, core.FlagDefault)); f != nil {
 		return f
+	}
+	if refused {
+		return nil // nothing was issued; the request is intact
 	}
 	for i, s := range c.Steps {
 		flags := core.FlagDefault
@@ -258,7 +279,7 @@ func TestC14(t *testing.T) {
 	}
 	gen := func(t *rapid.T) c14Case {
 		c := c14Case{Target: rapid.SampledFrom([]string{"ca", "mid", "leaf"}).Draw(t, "target")}
-		if c.Target == "leaf" && rapid.IntRange(0, 3).Draw(t, "csr") == 0 {
+		if (c.Target == "leaf" || rapid.IntRange(0, 2).Draw(t, "csr-signer") == 0) && rapid.IntRange(0, 3).Draw(t, "csr") == 0 {
 			// request without key: Go-made (with attributes) or hand-built for any curve
 			if rapid.Bool().Draw(t, "gocsr") {
 				_, c.CSRDER = goCertAndCSR(t)
